@@ -322,6 +322,36 @@ func (s *Store) Op(op string, ty TyClass, args ...*Term) *Term {
 				return s.Int(a << uint(k))
 			}
 		}
+	case "shr":
+		// x >> k on a non-negative x is x / 2^k
+		if k, ok := args[1].IntVal(); ok && k >= 0 && k < 62 && nonNeg(args[0]) {
+			return s.Op("idiv", TInt, args[0], s.Int(int64(1)<<uint(k)))
+		}
+		// exact for either sign when every coefficient and the offset are multiples of 2^k
+		if k, ok := args[1].IntVal(); ok && k > 0 && k < 62 {
+			as, cs, off := linParts(args[0])
+			bb := new(big.Int).Lsh(big.NewInt(1), uint(k))
+			all := new(big.Int).Mod(off, bb).Sign() == 0
+			for _, c := range cs {
+				if new(big.Int).Mod(c, bb).Sign() != 0 {
+					all = false
+				}
+			}
+			if all && len(as) > 0 {
+				nc := make([]*big.Int, len(cs))
+				for i := range cs {
+					nc[i] = new(big.Int).Quo(cs[i], bb)
+				}
+				return s.linMake(as, nc, new(big.Int).Quo(off, bb))
+			}
+		}
+	case "and":
+		// x & 1 on a non-negative x is x % 2
+		for i := 0; i < 2 && len(args) == 2; i++ {
+			if k, ok := args[i].IntVal(); ok && k == 1 && nonNeg(args[1-i]) {
+				return s.Op("imod", TInt, args[1-i], s.Int(2))
+			}
+		}
 	case "idiv":
 		if a, ok := args[0].IntVal(); ok {
 			if b, ok2 := args[1].IntVal(); ok2 && b != 0 {
@@ -384,6 +414,25 @@ func (s *Store) Op(op string, ty TyClass, args ...*Term) *Term {
 		// canonical polarity: condition is never a "not"
 		if args[0].Op == "not" {
 			return s.Op("ite", ty, args[0].Args[0], args[2], args[1])
+		}
+		// integer max / min / abs written with a comparison: every spelling (>, >=, swapped branches) selects the
+		// same value, so they get one canonical operator (not so for floats: NaN and signed zeros)
+		if ty == TInt && args[0].Op == "le0" && args[1].Ty == TInt && args[2].Ty == TInt {
+			d, p, q2 := args[0].Args[0], args[1], args[2]
+			one := s.Int(1)
+			if p == s.Neg(q2) {
+				// ite(q<0, -q, q), ite(q<=0, -q, q), ite(p>0, p, -p), ite(p>=0, p, -p)
+				if d == q2 || d == s.Add(q2, one) {
+					return s.intSel("iabs", q2)
+				}
+			}
+			qp, pq := s.Sub(q2, p), s.Sub(p, q2)
+			switch {
+			case d == qp || d == s.Add(qp, one): // p >= q or p > q selects p
+				return s.intSel("imax", p, q2)
+			case d == pq || d == s.Add(pq, one): // p <= q or p < q selects p
+				return s.intSel("imin", p, q2)
+			}
 		}
 	case "fneg":
 		if f, ok := args[0].FloatVal(); ok && args[0].Ty == TFloat {
@@ -476,6 +525,12 @@ func (s *Store) Cmp(op string, a, b *Term) *Term {
 		if x == y {
 			return s.True
 		}
+		// comparison of a selected value with a constant (err == nil after `if c { err = f() }`): select the comparison
+		for _, pr := range [][2]*Term{{x, y}, {y, x}} {
+			if pr[0].Op == "ite" && pr[1].K == KConst {
+				return s.Op("ite", TBool, pr[0].Args[0], s.Cmp("==", pr[0].Args[1], pr[1]), s.Cmp("==", pr[0].Args[2], pr[1]))
+			}
+		}
 		return s.mkOp("eq", TBool, x, y)
 	case "!=":
 		if a.Ty == TBool {
@@ -496,7 +551,7 @@ func (s *Store) Cmp(op string, a, b *Term) *Term {
 		if x == y {
 			return s.False
 		}
-		return s.Not(s.mkOp("eq", TBool, x, y))
+		return s.Not(s.Cmp("==", a, b))
 	}
 	return s.mkOp("cmp"+op, TBool, a, b)
 }
@@ -515,13 +570,68 @@ func nonNeg(t *Term) bool {
 		return nonNeg(t.Args[0])
 	case t.Op == "call:math/bits.OnesCount8":
 		return true
+	case t.K == KSym && t.Sym.Kind == SIter:
+		return true // iteration counters start at 0
+	case t.Op == "iabs":
+		return true
+	case t.Op == "imax":
+		return nonNeg(t.Args[0]) || nonNeg(t.Args[1])
+	case t.Op == "imin", t.Op == "imul":
+		for _, a := range t.Args {
+			if !nonNeg(a) {
+				return false
+			}
+		}
+		return true
+	case t.Op == "idiv":
+		if b, ok := t.Args[1].IntVal(); ok && b > 0 {
+			return nonNeg(t.Args[0])
+		}
+	case t.Op == "imod":
+		if b, ok := t.Args[1].IntVal(); ok && b > 0 {
+			return nonNeg(t.Args[0])
+		}
+	case t.Op == "lin":
+		if t.Off.Sign() < 0 {
+			return false
+		}
+		for i, a := range t.Args {
+			if t.Coefs[i].Sign() < 0 || !nonNeg(a) {
+				return false
+			}
+		}
+		return true
 	}
 	return false
+}
+
+// liftSel: a comparison of a linear form containing a selection with a constant arm (a helper's `return -1` sentinel)
+// is the selection of the comparisons: cmp(a + ite(c, k, x)) == ite(c, cmp(a+k), cmp(a+x)).
+func (s *Store) liftSel(d *Term, cmp func(*Term) *Term) *Term {
+	as, cs, _ := linParts(d)
+	for i, a := range as {
+		if a.Op != "ite" || a.Ty != TInt {
+			continue
+		}
+		_, k1 := a.Args[1].IntVal()
+		_, k2 := a.Args[2].IntVal()
+		if !k1 && !k2 {
+			continue
+		}
+		rest := s.Sub(d, s.MulC(a, cs[i]))
+		hi := cmp(s.Add(rest, s.MulC(a.Args[1], cs[i])))
+		lo := cmp(s.Add(rest, s.MulC(a.Args[2], cs[i])))
+		return s.Op("ite", TBool, a.Args[0], hi, lo)
+	}
+	return nil
 }
 
 func (s *Store) le0(d *Term) *Term {
 	if v, ok := d.IntVal(); ok {
 		return s.Bool(v <= 0)
+	}
+	if r := s.liftSel(d, s.le0); r != nil {
+		return r
 	}
 	// x > 0 on a non-negative x is x != 0 ; x <= 0 is x == 0
 	if as, cs, off := linParts(d); len(as) == 1 && nonNeg(as[0]) {
@@ -538,6 +648,17 @@ func (s *Store) le0(d *Term) *Term {
 func (s *Store) eq0(d *Term) *Term {
 	if v, ok := d.IntVal(); ok {
 		return s.Bool(v == 0)
+	}
+	// parity: x&1 == 0 and x%2 == 0 are the same test for every x
+	if d.Op == "and" && len(d.Args) == 2 {
+		for i := 0; i < 2; i++ {
+			if k, ok := d.Args[i].IntVal(); ok && k == 1 {
+				return s.eq0(s.Op("imod", TInt, d.Args[1-i], s.Int(2)))
+			}
+		}
+	}
+	if r := s.liftSel(d, s.eq0); r != nil {
+		return r
 	}
 	// sign-normalise: first coefficient positive
 	_, cs, _ := linParts(d)
@@ -763,4 +884,33 @@ func (s *Store) rebuild(t *Term, na []*Term) *Term {
 		return s.Or(na[0], na[1])
 	}
 	return s.Op(t.Op, t.Ty, na...)
+}
+
+// intSel builds iabs / imax / imin with a canonical operand order (and sign for iabs).
+func (s *Store) intSel(op string, args ...*Term) *Term {
+	if op == "iabs" {
+		x := args[0]
+		if v, ok := x.IntVal(); ok {
+			if v < 0 {
+				v = -v
+			}
+			return s.Int(v)
+		}
+		// |x| == |-x|: first coefficient positive
+		if _, cs, _ := linParts(x); len(cs) > 0 && cs[0].Sign() < 0 {
+			x = s.Neg(x)
+		}
+		if nonNeg(x) {
+			return x
+		}
+		return s.mkOp("iabs", TInt, x)
+	}
+	a, b := args[0], args[1]
+	if a == b {
+		return a
+	}
+	if a.id > b.id {
+		a, b = b, a
+	}
+	return s.mkOp(op, TInt, a, b)
 }
